@@ -173,7 +173,7 @@ def node_escape_contract(m, cname, sfx, prop="C02"):
         ctx = mk_ctx(c, env, loops=c.st.alloc(HList(items=[])), template=this_template)
         cnt = c.st.deref(c.st.deref(ctx).fields["counters"])
         kq = z3.Const("k!cnt", U)
-        c.requires(z3.ForAll([kq], U.is_int(z3.Select(cnt.val, kq))), "RenderContext invariant: increment/decrement counters are ints")
+        c.requires(z3.ForAll([kq], z3.And(U.is_int(z3.Select(cnt.val, kq)), U.i(z3.Select(cnt.val, kq)) < 2**62, U.i(z3.Select(cnt.val, kq)) > -(2**62))), "RenderContext invariant: increment/decrement counters are ints (moved by one per tag: below 2**62 in magnitude)")
         cyc = c.st.deref(c.st.deref(c.st.deref(ctx).fields["tag_namespace"]).items["cycles"])
         c.requires(z3.ForAll([kq], z3.And(U.is_int(z3.Select(cyc.val, kq)), U.i(z3.Select(cyc.val, kq)) >= 0)), "RenderContext invariant: cycle positions are non-negative ints (only context.cycle writes them)")
         tmpl = c.obj(TEMPLATE, "loaded_template", name=c.str("loaded_name"), env=env, path=NONE)
